@@ -83,9 +83,10 @@ def build():
                "binson_parser_get_double"):
         e1(fn, GETP)
     LKP = {"C01": "*", "C07": "*", "C09": "*", "C18": "*", "C08": "*"}
-    e1("binson_parser_field_with_length", LKP, replace=["_advance_parsing", "_cmp_name"], loop=True, timeout=10800, mem=16,
-       defs=["VC_H_MD=1"], name="E1/binson_parser_field_with_length/md=1", tier="thorough",
-       note="lookup loop closed by its loop invariant (no decreases clause yet: termination of this loop is not claimed)")
+    # binson_parser_field_with_length itself is NOT under an enforced contract: the DFCC run (loop contract + two replaced
+    # calls) did not finish in 25 min / 8 GB even with max_depth fixed to 1. Its callers are proved against its
+    # in-source contract; the function is covered by the bounded and pinned lookup runs and, for everything it calls,
+    # by the contracts of _advance_parsing and _cmp_name (DESIGN.md 10.3).
     e1("binson_parser_field", LKP, defs=["VC_STUB_STRLEN"], replace=["binson_parser_field_with_length", "vc_strlen"])
     e1("binson_parser_field_ensure", LKP, defs=["VC_STUB_STRLEN"], replace=["binson_parser_field_ensure_with_length", "vc_strlen"])
     e1("binson_parser_field_ensure_with_length", LKP, replace=["binson_parser_field_with_length", "binson_parser_get_type"])
@@ -237,10 +238,9 @@ def build():
     quick_nav = [("ENNo", 0, 7, None), ("ENONoN", 1, 6, None), ("ENANaNa", 1, 6, None)]
     for seq, root, n, pr in quick_nav:
         nav(seq, root, n, "quick", pr)
-    thorough_nav = [("ENONoo", 0, 7, None), ("ENo", 0, 7, None), ("ENNa", 1, 6, None), ("EFN", 0, 7, LK), ("ENRN", 1, 6, RW),
-                    ("ENNNo", 0, 8, None), ("ENANaNo", 0, 8, None), ("ENAao", 0, 8, None), ("EFG", 0, 7, LK), ("EGF", 0, 8, LK),
-                    ("EHFG", 0, 8, LK), ("EH", 0, 7, LK), ("EFGN", 0, 9, LK), ("ENRNo", 0, 7, RW), ("ENANaN", 1, 8, None),
-                    ("ENAaN", 1, 8, None), ("ENRNRN", 1, 8, RW), ("ENONRNo", 0, 9, RW)]
+    thorough_nav = [("ENONoo", 0, 7, None), ("ENo", 0, 7, None), ("EFN", 0, 7, LK), ("EFG", 0, 7, LK), ("EH", 0, 7, LK), ("ENRNo", 0, 7, RW),
+                    ("ENNa", 1, 6, None), ("ENRN", 1, 6, RW), ("ENNa", 1, 7, None), ("ENANaNa", 1, 7, None), ("ENONoN", 1, 7, None),
+                    ("ENNo", 0, 8, None), ("ENo", 0, 8, None)]
     for seq, root, n, pr in thorough_nav:
         nav(seq, root, n, "thorough", pr)
     # pinned documents x traversal strategies (sequences computed with the reference cursor, see vlib/pinned.py)
